@@ -43,6 +43,10 @@ def action_key(act):
         return "rename_blocks:" + ("targets-overlap-sources" if overlap else "disjoint")
     if op == "reorder":
         return "reorder:" + ("with-reversed-connection" if act.get("rev") else "plain")
+    if op == "refused":
+        return "refused:" + act.get("call", "?")
+    if op == "demote_block":
+        return "demote_block:" + ("repeated-name" if len(set(act["names"])) < len(act["names"]) else "distinct")
     return op
 
 
@@ -73,7 +77,7 @@ def run(pid, tier):
 
     # ---- C2S: random edit sequences on the real grid (4..8 names), every state validated
     nrand, length = (150, 40) if quick else (1500, 60)
-    base2 = ["a", "b", "c", "d", "e", "f", "g", "h"]
+    base2 = ["a", "b", "c", "d", "e", "f", "g", "h", "ya", "yb", "yc"]
     rtr = gridmodel.random_traces(t2grids, rng, nrand, length, base2, ["p", "q", "r"], ["v", "h", "s"],
                                   [(10, 90), (10, 40, 50), (5, 15, 30, 50), (20, 20, 20, 20, 20), (10, 10, 20, 20, 20, 20)])
     for t in rtr:
